@@ -15,7 +15,7 @@
 //!                      surrogate pairs, at line end, one past line end), plus the line one past the
 //!                      last line (columns 0,1); all ordered pairs incl. start > end;
 //!                      text ∈ {"", "x", "é", "😀", "\n"};
-//!   histories          ≤ DEPTH edits, BFS, states deduplicated by (client text, server text);
+//!   histories          ≤ DEPTH edits (quick 3, thorough 5; `C23_DEPTH` overrides), BFS, states deduplicated by (client text, server text);
 //!                      a state is expanded only if client == server (a divergence is a violation
 //!                      and is reported with its history instead of being explored further).
 //!
@@ -36,7 +36,7 @@ const ALPHABET: [&str; 5] = ["a", "é", "😀", "\n", "\r\n"];
 const MAX_DOC_SYMBOLS: usize = 3;
 const TEXTS: [&str; 5] = ["", "x", "é", "😀", "\n"];
 /// states per parallel batch (bounds the memory held in un-merged successor lists)
-const CHUNK: usize = 1024;
+const CHUNK: usize = 2048;
 
 fn main() {
     let a = vhcore::parse_args();
@@ -345,7 +345,17 @@ fn cause(c: &ClientDoc, range: Option<(Pos, Pos)>, text: &str) -> String {
     } else {
         "in-range-nonascii-text"
     };
-    format!("{primary}|{docclass}")
+    // for the causes that do not already name a line ending, say whether the document has CRLF
+    // line endings at all (so that a line-ending bug on in-range positions gets its own keys)
+    let generic = matches!(
+        primary,
+        "line-beyond-doc" | "start-after-end" | "in-range" | "in-range-nonascii-text"
+    );
+    if generic && c.units.contains(&0x0D) {
+        format!("{primary}|{docclass}+crlf")
+    } else {
+        format!("{primary}|{docclass}")
+    }
 }
 
 fn kind_name(k: PosKind) -> &'static str {
@@ -427,7 +437,27 @@ fn all_edits(sp: &Space, c: &ClientDoc) -> Vec<Edit> {
     out
 }
 
+thread_local! {
+    /// one tokio runtime per worker thread (creating one per state costs a thread spawn each)
+    static RT: std::cell::RefCell<Option<tokio::runtime::Runtime>> = const { std::cell::RefCell::new(None) };
+}
+
 fn explore_state(
+    sp: &Space,
+    states: &[State],
+    idx: usize,
+    seen: &HashMap<String, u32>,
+    via_handler: bool,
+    work: &Path,
+) -> StateResult {
+    let mut rt = RT.with(|c| c.borrow_mut().take()).unwrap_or_else(new_runtime);
+    let res = explore_state_on(&mut rt, sp, states, idx, seen, via_handler, work);
+    RT.with(|c| *c.borrow_mut() = Some(rt));
+    res
+}
+
+fn explore_state_on(
+    rt: &mut tokio::runtime::Runtime,
     sp: &Space,
     states: &[State],
     idx: usize,
@@ -438,12 +468,11 @@ fn explore_state(
     let mut res = StateResult::default();
     let st = &states[idx];
     let (init, path) = path_of(states, idx);
-    let mut rt = new_runtime();
     let docs = Documents::new();
     let uri = &sp.uris[init as usize];
 
     // materialise the server state by the real code: open the file, re-apply the witness history
-    let Some(opened) = open(&rt, &docs, uri) else {
+    let Some(opened) = open(rt, &docs, uri) else {
         machinery_failure(&format!("handle_open_file did not store {uri}"));
     };
     if path.is_empty() && opened.get_text() != sp.docs[init as usize] {
@@ -492,7 +521,7 @@ fn explore_state(
     let huri = Url::from_file_path(&hfile).unwrap();
     let hsnap = if via_handler {
         std::fs::write(&hfile, &st.text).unwrap_or_else(|e| machinery_failure(&format!("{e}")));
-        let d = open(&rt, &docs, &huri)
+        let d = open(rt, &docs, &huri)
             .unwrap_or_else(|| machinery_failure("handle_open_file (handler path) failed"));
         if d.get_text() != st.text {
             machinery_failure("handler-path document differs from the state text");
@@ -530,7 +559,7 @@ fn explore_state(
         if bad.is_none() {
             if let Some(hs) = &hsnap {
                 // the same change through the call the real notification handler makes
-                let hout = step_via_handler_path(&mut rt, &docs, &huri, hs, &ev);
+                let hout = step_via_handler_path(rt, &docs, &huri, hs, &ev);
                 res.handler_path_transitions += 1;
                 if hout.kind() != out.kind() || hout.server_text() != out.server_text() {
                     bad = Some((
@@ -562,7 +591,11 @@ fn explore_state(
             None => {
                 // conforming: client and server agree on the new text
                 let new_text = out.server_text();
-                if res.sample.is_none() && new_text != st.text && range.is_some() && !client.is_ascii()
+                // one deterministic, state-dependent pick (no randomness): the first conforming
+                // incremental transition at or after ordinal (idx * 7919) mod |edits|
+                if res.sample.is_none()
+                    && range.is_some()
+                    && res.transitions > (idx as u64 * 7919) % res.expected_transitions
                 {
                     res.sample = Some(json!({"before": st.text, "edit": sp.edit_json(&e),
                         "verdict": verdict_name(&verdict), "server": out.kind(), "after": new_text}));
@@ -604,7 +637,7 @@ fn run(a: &Args) -> i32 {
     let depth: usize = std::env::var("C23_DEPTH")
         .ok()
         .and_then(|s| s.parse().ok())
-        .unwrap_or(a.tier.pick(3, 4));
+        .unwrap_or(a.tier.pick(3, 5));
     // scratch files live in work/C23/run (wiped per run); work/C23/fix-*.patch are left alone
     let work = vhcore::verif_root().join("work").join("C23").join("run");
     let _ = std::fs::remove_dir_all(&work);
@@ -630,6 +663,7 @@ fn run(a: &Args) -> i32 {
         });
     }
 
+    let n_handler = enumerate::count_upto(ALPHABET.len(), 2) as usize;
     let mut transitions = 0u64;
     let mut handler_transitions = 0u64;
     let mut tuples: BTreeMap<(String, String, String, String), u64> = BTreeMap::new();
@@ -645,7 +679,9 @@ fn run(a: &Args) -> i32 {
         while from < layer_end {
             let to = (from + CHUNK).min(layer_end);
             let results = vhcore::par_map_idx(to - from, a.jobs, |k| {
-                explore_state(&sp, &states, from + k, &seen, d == 0, &work)
+                // the handler-path double check (tokio::fs, two blocking-pool hand-offs per
+                // transition) is run for every edit of the initial documents of <= 2 symbols
+                explore_state(&sp, &states, from + k, &seen, d == 0 && from + k < n_handler, &work)
             });
             for (k, r) in results.into_iter().enumerate() {
                 if r.viol.keys().any(|k| k.starts_with("open-mismatch")) {
@@ -669,7 +705,9 @@ fn run(a: &Args) -> i32 {
                     e.0 += n;
                 }
                 if let Some(s) = r.sample {
-                    if (from + k) % 37 == 5 {
+                    // spread the 12 evidence samples over the layers
+                    let stride = ((layer_end - layer_start) / 3).max(1);
+                    if (from + k - layer_start) % stride == stride / 2 {
                         rep.sample(s);
                     }
                 }
@@ -720,6 +758,10 @@ fn run(a: &Args) -> i32 {
     rep.set("transitions", transitions);
     rep.set("traces_validated_against_impl", transitions);
     rep.set("handler_path_transitions", handler_transitions);
+    rep.set(
+        "handler_path_scope",
+        "every conforming edit of the initial documents of <= 2 symbols is additionally applied through Documents::write_changes_to_file (the call handle_did_change_text_document makes) and must give the same outcome and in-memory text",
+    );
     rep.set("nonconforming_transitions", total_bad);
     rep.set("distinct_nontrivial", tuples.len() as u64);
     rep.set(
